@@ -51,6 +51,9 @@ type StreamManager struct {
 	Metrics *Metrics
 
 	wg sync.WaitGroup
+	// waiting: Run has added to wg and is (or will be) waiting on it, nobody has released it yet
+	mu      sync.Mutex
+	waiting bool
 }
 
 type PostConnect func(c Sender)
@@ -95,13 +98,27 @@ func (sm *StreamManager) Run() error {
 	}
 	sm.client.SetHandler(handler)
 
+	sm.mu.Lock()
+	sm.waiting = true
 	sm.wg.Add(1)
+	sm.mu.Unlock()
 	if err := sm.connect(); err != nil {
-		sm.wg.Done()
+		sm.release()
 		return err
 	}
 	sm.wg.Wait()
 	return nil
+}
+
+// release lets Run return. It does so once, whoever comes first: Stop, or Run itself when the first connection
+// fails (a Stop during that first connection, or a second Stop, used to take the counter below zero: a panic).
+func (sm *StreamManager) release() {
+	sm.mu.Lock()
+	if sm.waiting {
+		sm.waiting = false
+		sm.wg.Done()
+	}
+	sm.mu.Unlock()
 }
 
 // Stop cancels pending operations and terminates existing XMPP client.
@@ -109,7 +126,7 @@ func (sm *StreamManager) Stop() {
 	// Remove on disconnect handler to avoid triggering reconnect
 	sm.client.SetHandler(nil)
 	sm.client.Disconnect()
-	sm.wg.Done()
+	sm.release()
 }
 
 func (sm *StreamManager) connect() error {
